@@ -313,7 +313,7 @@ func (ev *evaluator) apply(d dataset, o Op, src2 *dataset) dataset {
 		out := perRow(d, t, func(r Row) []Row { return flatFn(o.Var, r) })
 		out.keyed = 0
 		return out
-	case OpWriterFunc:
+	case OpWriterFunc, OpCache:
 		return d
 	case OpScan:
 		return dataset{typ: t, n: d.n, shards: make([][]Row, d.n), compKnown: true, orderKnown: true}
